@@ -32,6 +32,38 @@ func bytesJoin(joiner rel.Value, subject rel.Bytes) rel.Value {
 	return rel.NewBytes(result)
 }
 
+// isBytesJoin reports whether joiner and the elements of subject are byte arrays (or empty).
+func isBytesJoin(joiner rel.Value, subject rel.Array) bool {
+	_, isBytes := joiner.(rel.Bytes)
+	for _, v := range subject.Values() {
+		switch v.(type) {
+		case rel.Bytes:
+			isBytes = true
+		case rel.EmptySet:
+		default:
+			return false
+		}
+	}
+	if _, is := tools.ValueAsBytes(joiner); !is {
+		return false
+	}
+	return isBytes
+}
+
+// Joins an array of byte arrays with joiner, the inverse of bytesSplit.
+func bytesArrayJoin(joiner rel.Value, subject rel.Array) (rel.Value, error) {
+	j, _ := tools.ValueAsBytes(joiner)
+	var result []byte
+	for i, v := range subject.Values() {
+		if i > 0 {
+			result = append(result, j...)
+		}
+		b, _ := tools.ValueAsBytes(v)
+		result = append(result, b...)
+	}
+	return rel.NewBytes(result), nil
+}
+
 // Splits byte array subject by delimiter.
 func bytesSplit(delimiter rel.Value, subject rel.Bytes) (rel.Value, error) {
 	var splitted []string
